@@ -16,24 +16,11 @@ while read commit prop; do
     f=$(ls $keep/*.json | head -1); cp $f "$here/../findings/$prop-fixed-$commit.json"
   fi
   rm -rf $keep
-done <<LIST
-12e371e C13
-2451f04 C13
-0c40b39 C11
-e5a1a2c C11
-0b3a844 C11
-2239c91 C04
-84e94f3 C04
-d22380f C04
-196f391 C03
-35714b0 C03
-c4348ae C03
-c54641a C04
-54310aa C03
-8ddc59a C12
-8bad8ee C12
-f28473c C10
-8542813 C10
-721fc26 C10
-060b397 C10
-LIST
+done < <(python3 - "$here/../known_findings.json" <<'PY'
+import json,sys
+seen=set()
+for f in json.load(open(sys.argv[1]))["findings"]:
+    if f["status"]=="fixed" and f["commit"] not in seen:
+        seen.add(f["commit"]); print(f["commit"], f["property"])
+PY
+)
